@@ -19,6 +19,7 @@ func (c *Ctx) chainIs(rule, key string, pos token.Pos, v ssa.Value, want []strin
 }
 
 func propC17(c *Ctx) propInfo {
+	c.errflow(excC17E2, "ton")
 	const R = "E8.mustcheck"
 	if f := c.mustFn(R, "ton", "AccountIDFromBase64Url"); f != nil {
 		c.mustDominate(R, f, 1, []requiredCheck{
@@ -428,4 +429,13 @@ func (c *Ctx) crc16Table() {
 		c.check(okIdx, R, name+" indexes the table with ((crc>>8)^b)&0xff", f.Pos(), "index shape", name+" no longer indexes the table with ((crc>>8)^byte)&0xff")
 	}
 	c.floor(R, 5)
+}
+
+var excC17E2 = map[string]string{
+	"(*ton.Bits256).FromUnknownString R-ignored ton.Bits256.FromBase64":                              "format probe: the text is tried as base64, then URL-safe base64, then hex; a form that does not parse is not an error as long as a later one does, and the error of the last attempt is returned",
+	"(*ton.Bits256).FromUnknownString R-ignored ton.Bits256.FromBase64URL":                           "format probe: the text is tried as base64, then URL-safe base64, then hex; a form that does not parse is not an error as long as a later one does, and the error of the last attempt is returned",
+	"ton.ParseAccountID R-ignored ton.AccountIDFromRaw":                                              "format probe: raw form first, then the user-friendly form; the error of the second attempt is returned",
+	"(*ton.Bits256).FromUnknownString R-swallow return nil under ton.Bits256.FromBase64() != nil":    "format probe: the text is tried as base64, then URL-safe base64, then hex; a form that does not parse is not an error as long as a later one does, and the error of the last attempt is returned",
+	"(*ton.Bits256).FromUnknownString R-swallow return nil under ton.Bits256.FromBase64() != nil#2":  "format probe: the text is tried as base64, then URL-safe base64, then hex; a form that does not parse is not an error as long as a later one does, and the error of the last attempt is returned",
+	"(*ton.Bits256).FromUnknownString R-swallow return nil under ton.Bits256.FromBase64URL() != nil": "format probe: the text is tried as base64, then URL-safe base64, then hex; a form that does not parse is not an error as long as a later one does, and the error of the last attempt is returned",
 }
